@@ -7,6 +7,7 @@ import (
 	_ "verifharness/internal/props/c05"
 	_ "verifharness/internal/props/c06"
 	_ "verifharness/internal/props/c12"
+	_ "verifharness/internal/props/c13"
 	_ "verifharness/internal/props/c15"
 	_ "verifharness/internal/props/c16"
 	_ "verifharness/internal/props/c18"
